@@ -127,6 +127,9 @@ def rec(f=None, **kw):
 '''
 
 
+RESP_SCHEMAS = {}     # name -> list of top-level fields (after nothing: includes correlation id)
+
+
 def generate():
     out = [HEADER]
 
@@ -134,6 +137,7 @@ def generate():
     def two_level(prefix, item, part_fields, ctor_args, header_size):
         parts = Arr(prefix + '_parts', part_fields)
         topics = Arr(prefix + '_topics', [('topic', 'str_ascii'), ('partitions', parts)])
+        RESP_SCHEMAS[prefix] = [('correlation_id', 'i32')] * (header_size // 4) + [('topics', topics)]
         gen_array(out, topics)
         gen_flatten2(out, prefix + '_items', item, topics, parts, 'partitions', ctor_args)
         out.append('''def {p}_ok(data: bytes) -> bool:
